@@ -4,3 +4,36 @@ package bfe_tls
 
 // VerifRemovePadding exposes removePadding to the verification harness (C43).
 func VerifRemovePadding(payload []byte) ([]byte, byte) { return removePadding(payload) }
+
+// VerifC43Record builds a CBC record (AES-128-CBC + HMAC-SHA1 / SSLv3 MAC, fixed keys) whose plaintext is
+// content ‖ MAC(content) ‖ pad with a VALID MAC and the given (arbitrary) padding bytes, encrypts it and runs the
+// real halfConn.decrypt on it.  Returns the plaintext that was encrypted and decrypt's verdict.
+// len(content)+20+len(pad) must be a positive multiple of 16.
+func VerifC43Record(vers uint16, content, pad []byte) (full []byte, ok bool, alertValue int) {
+	key := []byte("0123456789abcdef")
+	iv := []byte("fedcba9876543210")
+	macKey := []byte("mac-key-of-20-bytes!")
+	hc := &halfConn{version: vers}
+	hc.cipher = cipherAES(key, iv, true)
+	hc.mac = macSHA1(vers, macKey)
+	hdr := []byte{23, byte(vers >> 8), byte(vers), byte(len(content) >> 8), byte(len(content))}
+	m := macSHA1(vers, macKey).MAC(nil, hc.seq[:], hdr, content)
+	full = append(append(append([]byte{}, content...), m...), pad...)
+	if len(full) == 0 || len(full)%16 != 0 {
+		return full, false, -1
+	}
+	enc := cipherAES(key, iv, false).(cbcMode)
+	var rec []byte
+	if vers >= VersionTLS11 {
+		eiv := []byte("explicit-iv-16by")
+		enc.SetIV(eiv)
+		rec = append(rec, eiv...)
+	}
+	ct := make([]byte, len(full))
+	enc.CryptBlocks(ct, full)
+	rec = append(rec, ct...)
+	b := &block{}
+	b.data = append([]byte{23, byte(vers >> 8), byte(vers), byte(len(rec) >> 8), byte(len(rec))}, rec...)
+	ok, _, al := hc.decrypt(b)
+	return full, ok, int(al)
+}
